@@ -125,3 +125,75 @@ Proof.
   apply (perm_trans (l' := [2; 1; 3])); [apply perm_skip, perm_swap|].
   apply (perm_trans (l' := [1; 2; 3])); [apply perm_swap|]. apply Permutation_refl.
 Qed.
+
+(* ----------------------------------------------- a partially built model
+   the same workbook with a fifth node A4 (formula with code "T" reading A2)
+   that is NOT in the model when it is saved: the hypotheses of
+   C03_equiv_region_partial hold, for a history inside the saved part *)
+Definition codeT : str := [84%Z].
+Definition G1 : geometry :=
+  {| g_n := 5; g_range := fun n => n =? 2;
+     g_members := fun n => if n =? 2 then [0; 1] else []; g_key := fun n => n |}.
+Definition cdeps1 (t : str) : list nat :=
+  if str_eqb t codeS then [2] else if str_eqb t codeT then [1] else [].
+Definition W1 : workbook :=
+  {| wb_n := 5;
+     wb_input := fun n => n <? 2;
+     wb_deps := fun n => match n with 2 => [0; 1] | 3 => [2] | 4 => [1] | _ => [] end;
+     wb_range := fun n => n =? 2;
+     wb_inp0 := fun n => match n with 0 => VInt 2 | 1 => VInt 7 | _ => VNone end;
+     wb_stored := fun _ => VNone |}.
+Definition code1 (n : nat) : str := match n with 3 => codeS | 4 => codeT | _ => [] end.
+Definition sem1 := sem_of csem0 rsem0 (fun n => n =? 2) code1.
+Definition M1 : pmodel :=
+  {| pm_wb := W1; pm_code := code1;
+     pm_state := build_list W1 sem1 (init W1) [3];
+     pm_order := [3; 2; 0; 1];
+     pm_cycles := VBool false; pm_filename := VStr [119%Z]; pm_hash := VNone; pm_extra := None |}.
+
+Lemma built1 n : st_built (pm_state M1) n = (n <? 4).
+Proof. do 5 (destruct n as [|n]; [reflexivity|]). reflexivity. Qed.
+
+Example partial_hypotheses_satisfiable :
+  let h := [Evaluate 3; SetValue 1 (VInt 5); Evaluate 3; Evaluate 2] in
+  pm_ok G1 cdeps1 M1 /\ wf (pm_wb M1) /\ code_nonblank csem0 rsem0
+  /\ Inv (pm_wb M1) (pm_sem csem0 rsem0 M1) (pm_state M1) /\ no_eq_text M1
+  /\ stored_ok (pm_wb M1) (pm_sem csem0 rsem0 M1)
+  /\ inputs_exact (pm_wb M1) (st_cache (pm_state M1))
+  /\ st_built (pm_state M1) 4 = false
+  /\ Forall (post_in M1) h
+  /\ ok_history (pm_wb M1) (pm_sem csem0 rsem0 M1) (ok_op (pm_wb M1)) (pm_state M1) h.
+Proof.
+  cbn zeta.
+  assert (WF: wf W1) by (apply wfb_sound; reflexivity).
+  assert (NB: sem_nonblank W1 sem1) by apply sem_of_nonblank, cnb0.
+  assert (SO: stored_ok W1 sem1) by (apply stored_ok_nodata; reflexivity).
+  destruct (build_list_inv W1 sem1 WF NB SO [3] (init W1) (Inv_init _ _ WF SO)) as (I & B & C).
+  { intros n [<-|[]]. cbn. lia. }
+  split; [|split; [exact WF|split; [exact cnb0|split; [exact I|split; [|split; [exact SO|split; [|split]]]]]]].
+  - split.
+    + reflexivity.
+    + reflexivity.
+    + intros n _ R. cbn in R. apply Nat.eqb_eq in R. now subst.
+    + intros n L _ In R. do 5 (destruct n as [|n]; try discriminate; try reflexivity).
+    + repeat constructor; cbn; intuition discriminate.
+    + intros n. rewrite built1. cbn [pm_order M1 In]. rewrite Nat.ltb_lt. lia.
+  - intros n Bn In. do 2 (destruct n as [|n]; [reflexivity|]). discriminate.
+  - intros m L In. cbn [pm_state M1]. rewrite C by auto.
+    do 2 (destruct m as [|m]; [reflexivity|]). discriminate.
+  - reflexivity.
+  - split.
+    + repeat constructor; cbn; try (left; reflexivity); auto.
+    + cbn [ok_history]. repeat split; try (cbn; lia); try reflexivity.
+      intros d _ _ _. right. reflexivity.
+Qed.
+
+Example partial_roundtrip_computed :
+  let h := [Evaluate 3; SetValue 1 (VInt 5); Evaluate 3; Evaluate 2] in
+  match roundtrip_pkl G1 cdeps1 csem0 rsem0 M1 with
+  | Ok M' => snd (run (pm_wb M') (pm_sem csem0 rsem0 M') (pm_state M') h)
+             = snd (run (pm_wb M1) (pm_sem csem0 rsem0 M1) (pm_state M1) h)
+             /\ wb_input (pm_wb M') 4 = true /\ wb_input (pm_wb M1) 4 = false
+  | Raise _ => False
+  end.
+Proof. vm_compute. repeat split. Qed.
